@@ -408,6 +408,11 @@ class Exec:
             results.append(r)
             work.extend(self.pending)
             self.stats['paths'] += 1
+            # a caller that only asks "is some failing path reachable?" (overflow-checked builds) can stop after a few of them:
+            # a build in which every arithmetic step can fail has thousands of failing paths and each costs a re-execution
+            if getattr(self, 'stop_after_failures', 0) and sum(1 for x in results if x.status != 'ret') >= self.stop_after_failures:
+                self.truncated = bool(work)
+                break
         return results
 
     def run_single(self, setup, decisions):
